@@ -350,9 +350,9 @@ def runtime_exploration(res, tier, seed):
         note["race_detector"] = True
     rng = random.Random(seed * 31 + 7)
     if tier == "quick":
-        plan = [(8, 8.0, 0)]
+        plan = [(8, 8.0, 0, None)] + [(8, 1.0, 0, "cold")] * 4
     else:
-        plan = [(8, 50.0, 0), (16, 50.0, 4), (4, 45.0, 2)]
+        plan = [(8, 50.0, 0, None), (16, 50.0, 4, None), (4, 45.0, 2, None)] + [(8, 1.0, 0, "cold"), (16, 1.0, 0, "cold"), (4, 1.0, 2, "cold")] * 5
     bad = []
     known = C.load_known()
     known_ids = {f.get("id") for f in known.get("findings", []) if f.get("property") == "C16"}
@@ -370,12 +370,14 @@ def runtime_exploration(res, tier, seed):
                                  "rule": "the 15 largest .jst files plus an even spread over the sorted list of "
                                          "testdata/**/*.jst; kept if they validate, serialise, and two solo runs agree"
                                          + ("; quick tier: solo run <= 100 ms" if tier == "quick" else "")}
-    for n, dur, procs in plan:
+    for n, dur, procs, only in plan:
         s = rng.randint(1, 10 ** 6)
         cmd = [os.path.join(C.TOOLS, tool), "stress", "-n", str(n), "-dur", str(dur), "-seed", str(s),
                "-testdata", os.path.join(C.REPO, "testdata"), "-files", "30", "-fixtures", fixtures]
         if procs:
             cmd += ["-procs", str(procs)]
+        if only:
+            cmd += ["-stages", only]
         if tier == "quick":
             cmd += ["-shareddocs", "2"]
         t0 = time.time()
@@ -396,11 +398,11 @@ def runtime_exploration(res, tier, seed):
             bad.append(("stress run crashed: %s %s ... %s" % (head, " ".join(frames), p.stderr[-500:]), {"stress": cmd}, True))
             continue
         stages = rep.get("stages", {})
-        files = stages.get("projects", {}).pop("files", [])
+        files = stages.get("projects", {}).pop("files", []) or stages.get("cold", {}).pop("files", [])
         run_note["stages"] = stages
         run_note["fixture_files"] = len(files)
         res.count(sum(int(v.get("calls", 0)) for v in stages.get("collections", {}).values()))
-        res.count(int(stages.get("projects", {}).get("runs", 0)) + int(stages.get("shared", {}).get("reads", 0)))
+        res.count(int(stages.get("projects", {}).get("runs", 0)) + int(stages.get("cold", {}).get("runs", 0)) + int(stages.get("shared", {}).get("reads", 0)))
         for v in rep.get("violations", []):
             if v.get("class") == "example-only" and v.get("stage") == "projects":
                 n_known_diffs += 1
